@@ -42,6 +42,8 @@ pub trait Family: 'static + Sized + Send + Sync {
     /// PUBLISH with topic "t", QoS 0, no properties and the given payload
     fn publish_with_payload(payload: Vec<u8>) -> Self::Packet;
     fn type_index(p: &Self::Packet) -> usize;
+    /// the family's error value for a catalogue expectation
+    fn from_exp(e: &crate::mutate::ExpErr) -> Option<Self::Error>;
     /// every separately encodable part reachable from the packet (body, will, property sets, protocol)
     fn parts(p: &Self::Packet) -> Vec<Part>;
     /// packets of every type that carries properties, each with `n` user properties whose
@@ -151,6 +153,9 @@ impl Family for V3 {
     }
     fn type_index(p: &Self::Packet) -> usize {
         type_index_v3(p)
+    }
+    fn from_exp(e: &crate::mutate::ExpErr) -> Option<Self::Error> {
+        e.v3()
     }
     fn parts(p: &Self::Packet) -> Vec<Part> {
         use v3::Packet as P;
@@ -272,6 +277,9 @@ impl Family for V5 {
     }
     fn type_index(p: &Self::Packet) -> usize {
         type_index_v5(p)
+    }
+    fn from_exp(e: &crate::mutate::ExpErr) -> Option<Self::Error> {
+        e.v5()
     }
     fn parts(p: &Self::Packet) -> Vec<Part> {
         use v5::Packet as P;
